@@ -13,6 +13,7 @@ Section StmtProofs.
   Notation split_test := (split_test ub).
   Notation split_ret := (split_ret ub).
   Notation split_throw := (split_throw ub).
+  Notation graft := (graft ub).
   Notation norm := (norm ub).
   Notation norm_list := (norm_list ub).
   Notation norm_fn := (norm_fn ub).
@@ -112,11 +113,39 @@ Section StmtProofs.
       destruct (truthy v); [apply IHe2 | apply IHe3].
   Qed.
 
+  Lemma cseq_id : forall r, cseq r (fun t => Some (t, CNormal)) = r.
+  Proof. intros [[t [| | | |]]|]; reflexivity. Qed.
+
+  (* what follows a labelled statement *)
+  Definition after (l : Z) (r : option (trace * completion)) (k : tree) : option (trace * completion) :=
+    match r with
+    | Some (tr1, CNormal) => xt tr1 k
+    | Some (tr1, CBreak (Some l')) => if l' =? l then xt tr1 k else r
+    | _ => r
+    end.
+
+  Lemma after_ebind : forall l r f k, after l (ebind r f) k = ebind r (fun t v => after l (f t v) k).
+  Proof. intros l [[t [v|x]]|] f k; reflexivity. Qed.
+
+  Lemma graft_sound : forall l t k tr, xt tr (graft l t k) = after l (xt tr t) k.
+  Proof.
+    intros l t k. induction t; intros tr; cbn [Stmt.graft]; try reflexivity.
+    - destruct v; [|reflexivity]. cbn [exec_tree]. rewrite after_ebind. apply ebind_ext. reflexivity.
+    - cbn [exec_tree]. rewrite after_ebind. apply ebind_ext. reflexivity.
+    - destruct l0 as [l'|]; [|reflexivity]. cbn [exec_tree after]. destruct (l' =? l); reflexivity.
+    - cbn [exec_tree]. rewrite after_ebind. apply ebind_ext. intros t0 v. apply IHt.
+    - rewrite mk_if_sound. cbn [exec_tree]. rewrite after_ebind. apply ebind_ext. intros t0 v.
+      destruct (truthy v); [apply IHt1 | apply IHt2].
+    - cbn [exec_tree]. rewrite after_ebind. apply ebind_ext. intros t0 v. apply IHt.
+    - cbn [exec_tree]. unfold run_loop. destruct (eff tr (wloop id)) as [[t0 [v|x]]|]; cbn [ebind cseq after]; try reflexivity. apply IHt.
+  Qed.
+
   (* size of a statement, for the induction through blocks *)
   Fixpoint ssize (s : stmt) : nat :=
     S (match s with
        | SIf _ y n => ssize y + ssize n
        | SBlock b => (fix go (l : list stmt) : nat := match l with [] => O | x :: r => (ssize x + go r)%nat end) b
+       | SLabel _ b => ssize b
        | _ => O
        end)%nat.
 
@@ -139,6 +168,9 @@ Section StmtProofs.
       cbn [exec_tree]. rewrite cseq_ebind. apply ebind_ext. intros t0 v. apply IHd.
     - (* SLoop *) destruct init as [e|]; [|reflexivity].
       rewrite split_eff_sound, cseq_ebind. apply ebind_ext. reflexivity.
+    - (* SLabel *) cbn [ssize] in Hsz. rewrite graft_sound, IH by lia. rewrite cseq_id.
+      destruct (ex tr s) as [[t0 [| | |[l'|]|]]|]; cbn [after end_label cseq]; try reflexivity.
+      destruct (l' =? l); reflexivity.
     - reflexivity.
   Qed.
 
